@@ -276,6 +276,20 @@ def part_positions(sh, res):
                 else:
                     res.feat('fstring_names')
                     res.nontrivial += 1
+    # scale probe: long names (a common prefix of 12+ characters, differing only in the tail; a 40-character name)
+    longn = ['customer_name_1', 'customer_name_2', 'customer_name_10', 'customer name (2019), "net"', 'x' * 40, 'x' * 39 + 'y']
+    for n1 in longn:
+        for n2 in longn:
+            if n1 == n2:
+                continue
+            for pos, hdr in ((0, [n1, n2]), (1, [n2, n1])):
+                for label, text, p in queries_for(n1, pos):
+                    got = drive.run_py(text, qcheck.copy_table(ROWS), None, hdr, None)
+                    res.states += 1
+                    res.transitions += 1
+                    if judge(res, label, text, got, p, {'backend': 'table', 'header': hdr, 'query': text}):
+                        res.feat('long_names')
+                        res.nontrivial += 1
     # names that look like RBQL's own variables
     special = ['NR', 'NF', 'NU', 'aNR', 'bNR', 'a1', 'b2', 'count', 'top', 'x']
     for n1 in special:
